@@ -394,6 +394,11 @@ def corpus():
     out.append(dict(claim="write", origin="built", mode="line", style="grid", hdr=dict(hdr0, offset=R(1000)), bpms=[[R(0), R(120)]],
                     charts=[dict(type="dance-single", desc="", diff="Easy", meter=1, radar=[R(0.0)] * 5,
                                  notes=[hit(0, 0), hit(1, 2000)])], rate=None))
+    # an object before the first tempo point (hypothesis `t0 <= n.time` of ChartWritten): the writer raises IndexError,
+    # and so does the model (`Err.index`)
+    out.append(dict(claim="write", origin="built", mode="line", style="grid", hdr=dict(hdr0, offset=R(1000)), bpms=[[R(1000), R(120)]],
+                    charts=[dict(type="dance-single", desc="", diff="Easy", meter=1, radar=[R(0.0)] * 5,
+                                 notes=[hit(0, 500), hit(1, 1500)])], rate=None))
     # two tempo points one millisecond apart snap to the same beat: outside the domain, must not be judged
     out.append(dict(claim="write", origin="built", mode="line", style="grid", hdr=hdr0, bpms=[[R(0), R(37)], [R(1), R(30)]],
                     charts=[dict(type="kb7-single", desc="a", diff="B", meter=0, radar=[R(0.0)], notes=[])], rate=None))
